@@ -19,7 +19,7 @@ DATES = {
     's': ['2020-01-01T00:00:%02d' % i for i in range(10)],
 }
 NAMES = [None, 'nm', {'t': ['x', 'y']}]
-FLAT_CLASSES = [('IndexGO', 6), ('auto', 3), ('auto_static', 1.5), ('dt64_plain', 0.8), ('IndexDateGO', 1.5), ('IndexYearMonthGO', 0.7),
+FLAT_CLASSES = [('IndexGO', 6), ('auto', 3), ('auto_static', 1.5), ('dt64_plain', 0.8), ('td64_plain', 0.6), ('IndexDateGO', 1.5), ('IndexYearMonthGO', 0.7),
                 ('IndexYearGO', 0.7), ('IndexSecondGO', 0.5), ('Index', 0.7), ('IndexDate', 0.3)]
 IX_DERIVES = ['copy', 'deepcopy', 'pickle', 'static', 'go', 'rename', 'relabel', 'roll', 'sort', 'iloc_sel', 'iloc_slice', 'iloc_slice', 'iloc_mask',
               'loc_sel', 'drop_iloc', 'head', 'tail', 'union', 'intersection', 'difference', 'astype',
@@ -35,13 +35,22 @@ def label_pool(m):
     u = m.unit
     if u is not None:
         return 'date', DATES[u]
-    if m.raw and all(isinstance(x, (int, np.integer)) and not isinstance(x, (bool, np.bool_)) for x in m.raw):
+    if m.raw and all(isinstance(x, (int, np.integer)) and not isinstance(x, (bool, np.bool_, np.timedelta64)) for x in m.raw):
         return 'int', INTS
     if m.raw and all(isinstance(x, str) for x in m.raw):
         return 'str', STRS
     if not m.raw:
         return 'any', INTS + STRS
     return 'mix', INTS + STRS
+
+
+def safe_eq(a, b):
+    '''Python equality as a plain bool (False when the comparison is an array or raises).'''
+    try:
+        v = a == b
+        return bool(v) if isinstance(v, (bool, np.bool_)) else False
+    except Exception:
+        return False
 
 
 def unorderable_mix(ix):
@@ -80,6 +89,12 @@ class IndexOps:
             op['auto'] = True
             op['labels'] = list(range(n if cls == 'auto' else ch.randint(0, 9)))
             return op
+        if cls == 'td64_plain':
+            # a plain IndexGO over timedelta64 labels: they must stay timedelta64 whatever is appended later
+            op['cls'] = 'IndexGO'
+            op['td64'] = ch.choice(['D', 's', 'ns'])
+            op['labels'] = ch.sample(range(1, 9), n)
+            return op
         if cls == 'dt64_plain':
             # a plain IndexGO built from a datetime64 array (as FrameGO(columns=array_of_dates) gets it)
             op['cls'] = 'IndexGO'
@@ -116,7 +131,7 @@ class IndexOps:
         fam, pool = label_pool(m)
         held = m.labels()
         if fault:
-            ints = [x for x in m.raw if isinstance(x, (int, np.integer)) and not isinstance(x, (bool, np.bool_))]
+            ints = [x for x in m.raw if isinstance(x, (int, np.integer)) and not isinstance(x, (bool, np.bool_, np.timedelta64))]
             kind = ch.weighted([('dup', 4 if m.raw else 0), ('unhashable', 2), ('bad', 1 if fam == 'date' else 0),
                                 ('eqfloat', 2 if ints else 0), ('nptype', 0.7 if fam != 'date' else 0), ('odd', 0.7 if fam != 'date' else 0)])
             if kind == 'odd':
@@ -140,6 +155,10 @@ class IndexOps:
                 return None
             s = ch.choice(free)
             return {'d': s} if ch.chance(0.3) else s
+        if ch.chance(0.04):
+            td = np.timedelta64(20 + len(m.raw), 'D')
+            if norm(td) not in held:
+                return {'td': [20 + len(m.raw), 'D']}  # a duration next to whatever is held: nothing held may be converted
         if e.extra.get('auto') and ch.chance(0.6):
             return len(m.raw)  # keeps loc_is_iloc
         free = [x for x in pool if norm(x) not in held]
@@ -240,7 +259,11 @@ class IndexOps:
             return 'skip'
         dup = len(set(norm_list(coerced))) != len(coerced)
         route = op.get('route', 'list')
-        if op.get('auto_src') and u:
+        if op.get('td64'):
+            coerced = [np.timedelta64(int(x), op['td64']) for x in labels]
+            dup = len(set(labels)) != len(labels)
+            st, r = call(lambda: sf.IndexGO(np.array(labels, dtype='timedelta64[%s]' % op['td64']), name=name))
+        elif op.get('auto_src') and u:
             # a datetime-typed index made from a default (auto-integer, map-less) index: the integers are converted
             n_ = len(labels)
             coerced = [np.datetime64(i, u) for i in range(n_)]
@@ -413,7 +436,7 @@ class IndexOps:
         e.extra.pop('pending_fail', None)
         return 'raise:' + ('sim' if isinstance(exc, SimulatedFailure) else type(exc).__name__)
 
-    def _readable_after_accept(self, e, site, cls, labels=()):
+    def _readable_after_accept(self, e, site, cls, labels=(), single=True):
         '''A growth call that returned normally must leave a container that can be read (labels and data in step).'''
         obj = e.obj
 
@@ -435,6 +458,12 @@ class IndexOps:
             stc, c = call(lambda: lab in ix)
             if self.want(oracle) and (stc == 'raise' or c is not True):
                 raise Violation(oracle, site, cls, f'the growth call accepted the label {lab!r} but it is not a member afterwards (held: {list(ix)!r:.200})')
+            if single and cls.startswith(('key-wrong-depth', 'odd-hashable', 'sized-hashable', 'numpy-type-label')) and len(labels) == 1:
+                # an accepted label is held as given (a bytes key on a hierarchy is "found" through its integer elements)
+                stl, last = call(lambda: list(ix)[-1])
+                same = stl == 'ok' and type(last) is type(lab) and last == lab
+                if self.want(oracle) and not same:
+                    raise Violation(oracle, site, cls, f'the growth call accepted the label {lab!r} but holds {last!r} instead')
 
     def _growth_ok(self, e, site, cls):
         self.stats['grow:' + site] += 1
@@ -629,7 +658,7 @@ class IndexOps:
             raise KeyError(how)
         # scoping: datetime64 objects held in a non-datetime (object) index get the library's documented loose
         # date matching on lookup; such indices are not generated (DESIGN 9, corrections)
-        if how == 'level_add' and any(isinstance(x, np.datetime64) and np.datetime_data(x.dtype)[0] == 'ns' for x in m.raw):
+        if how == 'level_add' and any((isinstance(x, np.datetime64) and np.datetime_data(x.dtype)[0] == 'ns') or isinstance(x, np.timedelta64) for x in m.raw):
             return 'skip'  # known: 2-D values of a hierarchy present nanosecond labels as integers (KNOWN_FINDINGS: audit C02/violation7)
         st, r = call(mk)
         if st == 'raise':
@@ -717,7 +746,7 @@ class IndexOps:
                     nx = norm(m.coerce(x))
                 except Exception:
                     nx = norm(x)
-                if nx in exp_labels or any(type(r) is not np.datetime64 and not isinstance(x, type) and r == x for r in m.raw):
+                if nx in exp_labels or any(type(r) not in (np.datetime64, np.timedelta64) and not isinstance(x, type) and safe_eq(r, x) for r in m.raw):
                     continue
                 stc, c = call(lambda: x in obj)
                 if stc == 'ok' and c is not False:
@@ -800,7 +829,7 @@ class IndexOps:
             pool = (STRS + INTS + [100 + i for i in range(4)]) if m.unit is None else [np.datetime64(x, m.unit) for x in DATES[m.unit]]
             held = set(exp_labels)
             for x in pool:
-                if norm(x) in held or any(type(r) is not np.datetime64 and r == x for r in m.raw):
+                if norm(x) in held or any(type(r) not in (np.datetime64, np.timedelta64) and safe_eq(r, x) for r in m.raw):
                     continue  # held (label equality is Python equality: True == 1)
                 st, c = call(lambda: x in obj)
                 if st == 'ok' and c is not False:
